@@ -48,3 +48,61 @@ Theorem C06_check_then_set_refuted :
   exists sched, List.length (ran (invoke_check_then_set sched false [] [])) = 2.
 Proof. exact check_then_set_refuted. Qed.
 Print Assumptions C06_check_then_set_refuted.
+
+(* ---- hand-offs end to end (Model/ExpectedHandoff.v, Proofs/C06Handoff.v) ---- *)
+From Coq Require Import Permutation.
+Require Import Eliot.Model.Core Eliot.Model.Prog Eliot.Model.Parser Eliot.Model.Forest
+  Eliot.Model.Roundtrip Eliot.Model.Expected Eliot.Model.ExpectedHandoff.
+Require Import Eliot.Proofs.C01Roundtrip Eliot.Proofs.C06Handoff.
+
+(* what the destination received from a program with hand-offs (any hop depth, each in a
+   fresh thread), numbered in emission order, is the linearisation of the forest it means:
+   each remote sub-tree in place, same task uuid, levels extending the reserved position *)
+Theorem C06_handoff_emission :
+  forall cfg d e p, simple_h p = true -> reg_ok_h cfg p = true ->
+  number_from 0 (trace_of (fst (run_prog cfg (one_dest d e) p)) d) = lin (expected_h p).
+Proof. exact C06_emission. Qed.
+Print Assumptions C06_handoff_emission.
+
+(* both sides' messages merged and delivered in ANY order parse to exactly the tasks of
+   expected_h p, all complete, each root the whole expected tree (remote actions in place) *)
+Theorem C06_handoff_roundtrip :
+  forall cfg d e p order, simple_h p = true -> reg_ok_h cfg p = true ->
+  Permutation order (seq 0 (List.length (lin (expected_h p)))) ->
+  exists done us,
+    roundtrip cfg (one_dest d e) p d order = POk (done, []) /\
+    Permutation us (seq 0 (List.length (expected_h p))) /\
+    Forall2 (parsed_as (expected_h p)) us done.
+Proof. exact C06_roundtrip. Qed.
+Print Assumptions C06_handoff_roundtrip.
+
+(* the serialized ids after the run: one per executed hand-off, the (uuid, level) of the
+   action that continued it; pairwise distinct; the (uuid, level) of no emitted message and
+   of no other action object *)
+Theorem C06_handoff_ids_unique :
+  forall cfg d e p, simple_h p = true -> reg_ok_h cfg p = true ->
+  let s := fst (run_prog cfg (one_dest d e) p) in
+  (forall slot h', In (slot, h') (handoffs p) ->
+     exists a', alookup h' (heap s) = Some a' /\ alookup slot (ids s) = Some (a_uuid a', a_level a')) /\
+  (forall slot, ~ In slot (map fst (handoffs p)) -> alookup slot (ids s) = None) /\
+  (forall slot1 slot2 id,
+     alookup slot1 (ids s) = Some id -> alookup slot2 (ids s) = Some id -> slot1 = slot2) /\
+  (forall slot u l, alookup slot (ids s) = Some (u, l) ->
+     (forall m, In m (trace_of s d) -> (fget K_uuid m, fget K_level m) <> (Some (VUuid u), Some (VLevel l))) /\
+     (forall pm, In pm (lin (expected_h p)) -> (pm_uuid pm, pm_level pm) <> (u, l))) /\
+  (forall slot h' u l, In (slot, h') (handoffs p) -> alookup slot (ids s) = Some (u, l) ->
+     forall h2 a2, alookup h2 (heap s) = Some a2 -> a_uuid a2 = u -> a_level a2 = l -> h2 = h').
+Proof. exact C06_ids_unique. Qed.
+Print Assumptions C06_handoff_ids_unique.
+
+(* the stream handed to the parser contains, for every executed hand-off, the start message of
+   an eliot:remote_task action whose uuid and own prefix are exactly the serialized id *)
+Theorem C06_handoff_remote_in_place :
+  forall cfg d e p, simple_h p = true -> reg_ok_h cfg p = true ->
+  let s := fst (run_prog cfg (one_dest d e) p) in
+  forall slot h', In (slot, h') (handoffs p) ->
+    exists u l i,
+      alookup slot (ids s) = Some (u, l) /\
+      In (mkPmsg u (l ++ [1%positive]) (Some T_remote_task) (Some PStarted) i) (lin (expected_h p)).
+Proof. exact C06_remote_in_place. Qed.
+Print Assumptions C06_handoff_remote_in_place.
